@@ -1075,7 +1075,7 @@ func equalsProgram(p *Prog, r *R, nops int) {
 					p.do(&Op{Name: "LReplace", R: a, I: i, Vals: []Operand{v}})
 					if r.chance(0.4) {
 						b := pickOf(r, ls)
-						if int(i) < p.m.list(b).Count() && (!v.IsReg || v.Reg != b) {
+						if int(i) < p.m.list(b).Count() && p.storable(v, b) {
 							p.do(&Op{Name: "LReplace", R: b, I: i, Vals: []Operand{v}})
 						}
 					}
@@ -1088,7 +1088,7 @@ func equalsProgram(p *Prog, r *R, nops int) {
 					p.do(&Op{Name: "OSet", R: a, Vals: []Operand{{V: vstr(k)}, v}})
 					if r.chance(0.4) {
 						b := pickOf(r, os)
-						if !v.IsReg || v.Reg != b {
+						if p.storable(v, b) {
 							p.do(&Op{Name: "OSet", R: b, Vals: []Operand{{V: vstr(k)}, v}})
 						}
 					}
@@ -1265,6 +1265,16 @@ func xProgramBody(p *Prog, r *R, prof string) {
 			p.newContainer()
 		}
 	}
+}
+
+// storable: may operand v be stored into container register `into` without creating a cycle?
+func (p *Prog) storable(v Operand, into int) bool {
+	if !v.IsReg {
+		return true
+	}
+	acc := map[any]bool{}
+	reach(p.m.vars[v.Reg], acc)
+	return !acc[p.m.vars[into]]
 }
 
 // twin: a second container with the same top-level content as an existing one (equal, not identical)
